@@ -120,10 +120,64 @@ pub fn run(a: &Args) -> Report {
     // sort stability / total order: sorting any permutation gives the same sequence of identities
     let mut v1 = metas.clone();
     let mut v2: Vec<MetaType> = metas.iter().rev().copied().collect();
-    v1.sort();
-    v2.sort();
-    if v1.iter().map(|m| m.type_id()).collect::<Vec<_>>() != v2.iter().map(|m| m.type_id()).collect::<Vec<_>>() {
-        total.violation("C16/sort-unstable", "sorting the corpus from two different initial orders gives different results".into(), json!({}));
+    // (the standard library may panic when it notices that a comparison is not a total order)
+    let sorted = guard(|| {
+        v1.sort();
+        v2.sort();
+    });
+    if let Err(p) = sorted {
+        total.violation("C16/ord-not-a-total-order", format!("sorting the corpus of MetaTypes panicked: {}", p), json!({}));
+    } else {
+        if v1.iter().map(|m| m.type_id()).collect::<Vec<_>>() != v2.iter().map(|m| m.type_id()).collect::<Vec<_>>() {
+            total.violation("C16/sort-unstable", "sorting the corpus from two different initial orders gives different results".into(), json!({}));
+        }
+        // a sorted sequence has no inversion at any distance (this is transitivity over the whole corpus)
+        let name_of = |m: &MetaType| metas.iter().position(|x| x.type_id() == m.type_id()).map(|k| es[k].text).unwrap_or("?");
+        'inv: for x in 0..v1.len() {
+            for y in x + 1..v1.len() {
+                if v1[x] > v1[y] {
+                    total.violation("C16/ord-not-transitive", format!("after sorting, `{}` at position {} is greater than `{}` at position {}", name_of(&v1[x]), x, name_of(&v1[y]), y), json!({"a": name_of(&v1[x]), "b": name_of(&v1[y])}));
+                    break 'inv;
+                }
+            }
+        }
+        total.count("sorted_pairs_checked", (v1.len() * (v1.len().saturating_sub(1)) / 2) as u64);
+    }
+    // ordered and hashed collections keep every identity they were given, once
+    {
+        let n_classes = dids.iter().collect::<std::collections::HashSet<_>>().len();
+        let res = guard(|| {
+            let bt: std::collections::BTreeSet<MetaType> = metas.iter().copied().collect();
+            let hs: std::collections::HashSet<MetaType> = metas.iter().copied().collect();
+            let missing_bt = metas.iter().position(|m| !bt.contains(m));
+            let missing_hs = metas.iter().position(|m| !hs.contains(m));
+            (bt.len(), hs.len(), missing_bt, missing_hs)
+        });
+        match res {
+            Ok((bl, hl, mb, mh)) => {
+                if bl != n_classes || mb.is_some() {
+                    total.violation("C16/ordered-set-loses-members", format!("a BTreeSet of the corpus holds {} MetaTypes for {} identities{}", bl, n_classes, mb.map(|k| format!("; `{}` is not found in it", es[k].text)).unwrap_or_default()), json!({}));
+                }
+                if hl != n_classes || mh.is_some() {
+                    total.violation("C16/hash-set-loses-members", format!("a HashSet of the corpus holds {} MetaTypes for {} identities", hl, n_classes), json!({}));
+                }
+                total.count("collections_checked", 2);
+            }
+            Err(p) => total.violation("C16/ord-not-a-total-order", format!("building ordered / hashed sets of MetaTypes panicked: {}", p), json!({})),
+        }
+    }
+    // transitivity on random triples drawn from the whole corpus (named, unnamed, derived, hand-written mixed)
+    {
+        let mut rng = vcommon::prng::Rng::derive(a.u("seed", 1) ^ 0x16, 0);
+        let nn = metas.len();
+        for _ in 0..2_000_000u32 {
+            let (x, y, z) = (rng.below(nn), rng.below(nn), rng.below(nn));
+            if metas[x] <= metas[y] && metas[y] <= metas[z] && !(metas[x] <= metas[z]) {
+                total.violation("C16/ord-not-transitive", format!("`{}` <= `{}` and `{}` <= `{}` but not `{}` <= `{}`", es[x].text, es[y].text, es[y].text, es[z].text, es[x].text, es[z].text), json!({"a": es[x].text, "b": es[y].text, "c": es[z].text}));
+                break;
+            }
+        }
+        total.count("random_transitivity_triples", 2_000_000);
     }
     let mut classes: HashMap<TypeId, Vec<&str>> = HashMap::new();
     for (e, d) in es.iter().zip(&dids) {
